@@ -197,7 +197,9 @@ func check(c Case) error {
 // compared with whitespace collapsed).
 var attrAtoms = []string{"line one\r\nline two", "a\rb", "x\ny", "t\tu", "\r\n"}
 
-var textAtoms = []string{"a", "b c", "x", "1 < 2", "&", "<", ">", `"`, "'", ";", "&amp;", "&lt;", "&#38;", "&nbsp;", "&amp;amp;", " ", "é", "a & b;", "x;y", "&lt;b&gt;", "</p>", "&#", "& ", "&x;", "tom&jerry", "-->", "<!--", "1 &lt; 2 &amp; 3;"}
+var textAtoms = []string{"a", "b c", "x", "1 < 2", "&", "<", ">", `"`, "'", ";", "&amp;", "&lt;", "&#38;", "&nbsp;", "&amp;amp;", " ", "é", "a & b;", "x;y", "&lt;b&gt;", "</p>", "&#", "& ", "&x;", "tom&jerry", "-->", "<!--", "1 &lt; 2 &amp; 3;",
+	// closing braces are ordinary text, also in front of a mustache of the same run / value
+	"}}", "} }}", `{"a": {"b": 1}}`, "}"}
 
 type gctx struct {
 	t      *rapid.T
